@@ -4,7 +4,22 @@ from .replay_printer import run_standin
 
 def replay_rename(ob):
     r = run_standin('rename_sweep.py', ['--random', '80'])
-    fails = [f for f in r.get('failures', []) if f.get('mechanism') != 'param-rebind-before-compound-statement']
+    fails = [f for f in r.get('failures', []) if not f.get('mechanism')]
     if fails:
         return {'reproduced': True, 'input': fails[:4]}
     return {'reproduced': None, 'note': 'the rename sweep shows no failure for this change', 'detail': r.get('error')}
+
+
+def replay_determinism(ob):
+    r = run_standin('determinism.py', [])
+    if r.get('n_failures'):
+        return {'reproduced': True, 'input': r['failures'][:4]}
+    return {'reproduced': None, 'note': 'determinism sweep (hash seeds, history, re-used arguments, threads) shows no difference', 'detail': r.get('error')}
+
+
+def replay_encoding(ob):
+    r = run_standin('encoding_sweep.py', [])
+    new = [f for f in r.get('failures', []) if not f.get('mechanism')]
+    if new:
+        return {'reproduced': True, 'input': new[:4]}
+    return {'reproduced': None, 'note': 'encoding sweep shows no new failure', 'detail': r.get('error')}
